@@ -314,7 +314,7 @@ def _valid_cp(cp):
 def gen_plan(seed, tier):
   return gen_history(
       seed, tier, classes=TUPLE_LEARNERS, n_ops=(6, 16), dmax=6, pre_p=0.4, classifier_bias=4,
-      dataset_kinds=["blobs", "blobs", "grid"], tiny_scale_p=0.15, grid_p=0.3, view_p=0.35, int_rows_p=0.2,
+      dataset_kinds=["blobs", "blobs", "grid"], tiny_scale_p=0.15, grid_p=0.3, view_p=0.35, int_rows_p=0.2, one_class_p=0.05,
       weights=dict(query=40, refit=8, threshold=18, calibrate=10, sweep=8, handout=0, mutate=0,
                    restart=5, clone=2, ambient=2, eigsh=0, set_nondata=2, failfit=2,
                    fault=0, new=6, swap_pre=4))
